@@ -185,8 +185,9 @@ type connFlags struct {
 	admittedLive     bool
 	misbehaved       string // forbidden | contra : the reply carrying it has been queued
 	misDelivered     bool
-	verEnd           int // offset at which the node's version message ends
-	nGhChecked       int // getheaders of the service seen on this connection
-	misEnd           int // offset (bytes written by the node) at which the offending message ends
+	banProbe         bool // opened right after an offence of its host: the ban must be in force
+	verEnd           int  // offset at which the node's version message ends
+	nGhChecked       int  // getheaders of the service seen on this connection
+	misEnd           int  // offset (bytes written by the node) at which the offending message ends
 	ghAtMis          int
 }
